@@ -120,7 +120,7 @@ func addVehicles(
 			return nil, err
 		}
 
-		if inputVehicle.AlternateStops != nil {
+		if inputVehicle.AlternateStops != nil && input.AlternateStops != nil {
 			inputVehicleHasAlternateStops = true
 			vehicle.First().SetMeasureIndex(len(input.Stops) + len(*input.AlternateStops) + idx*2)
 			vehicle.Last().SetMeasureIndex(len(input.Stops) + len(*input.AlternateStops) + idx*2 + 1)
